@@ -108,10 +108,12 @@ def conn_term(res, stream_parts, late_spec, cmp_relay, reads=None, iters=None):
     parts = [("Lit %s" % ref(p[1])) if isinstance(p, tuple) else p for p in stream_parts]
     echo = res.get("echo") or {"len": 0}
     echo_t = "Lit (@nil N)" if echo["len"] == 0 else "Dig %d%%N %s%%N" % (echo["len"], echo["hash"])
-    return ("(%s Build_conn_case %s %s %s %s %s %s\n   %s %s %s\n   %s %s %s (%s) (%s))"
+    rf = res.get("relay_first")
+    replay_t = "None" if not rf else "(Some (%d%%N, %s%%N))" % (rf["len"], rf["hash"])
+    return ("(%s Build_conn_case %s %s %s %s %s %s\n   %s %s %s\n   %s %s %s (%s) (%s) %s)"
             % (" ".join(binds), regs, revs, marks, gbool(hs), gN(res["tracked"]), glist(res["ts"], lambda t: gN(TCODE[t])),
                glist(parts), glist(rd, gN), iters_t, gopt(found), gbool(res.get("status") == 1), gbool(cmp_relay),
-               late_spec, echo_t))
+               late_spec, echo_t, replay_t))
 
 
 def gen_cases(ctx, table):
@@ -347,7 +349,13 @@ def run(ctx):
     def lap(what):
         print("[C04 %5.1fs] %s" % (time.time() - t0, what), file=sys.stderr)
     # one build under the tree lock: theorems, the evaluator used by the correspondence, the examples
-    ctx.coq_props(props_files=["C04/Props.v", "C04/Run.v", "C04/Examples.v"])
+    # coq/C05 (the relay model, another builder's directory) is part of this property's project: it is
+    # required by C04/PropsRelay.v; it is cleaned and re-checked by C05's own run, not here
+    ctx.extra_dirs = ["C05"]
+    ctx.coq_props(props_files=["C04/Props.v", "C04/PropsRelay.v", "C04/Run.v", "C04/Examples.v", "C04/ExamplesRelay.v"])
+    bad_h = ctx.hygiene(["C05"])
+    if bad_h:
+        ctx.broken("hygiene", "forbidden constructs in coq/C05: %s" % bad_h[:5])
     lap("coq props")
     rc, out, res = run_go(ctx, [])
     lap("go table dump")
@@ -374,20 +382,15 @@ def run(ctx):
     if ctx.tier == "quick":
         two = [i for i, c in enumerate(cases) if c.get("kind") == "2cut"]
         ctx.rng.shuffle(two)
-        skip = set(two[150:])
+        skip = set(two[600:])
         phase = ctx.rng.randrange(3)
         for i, c in enumerate(cases):
             fl = len(results[i].get("flight") or "") // 2
             if not fl or not c.get("cuts"):
                 continue
             cut = c["cuts"][0]
-            if c.get("kind") == "1cut-banner" and cut < fl - 4:
+            if c.get("kind") == "1cut-banner" and cut < fl - 8 and cut % 3 != phase:
                 skip.add(i)
-            elif c.get("kind") == "1cut":
-                off = fl - 64 if c["transport"] == "prefix" else 0
-                hot = {1, off - 1, off, off + 1, off + 31, off + 32, off + 33, fl - 1, fl, fl + 1}
-                if cut not in hot and cut % 3 != phase:
-                    skip.add(i)
     for i, (c, r) in enumerate(zip(cases, results)):
         bad = oracle(ctx, c, r)
         kind = "%s/%s/%s" % (c["transport"], c.get("kind", "replay"), "ok" if not bad else "bad")
